@@ -199,11 +199,39 @@ def csv_facts():
     if guard is None:
         raise Unsupported("CsvfileWriter.write: no `if` guarding writeheader()")
 
+    # local aliases: a name assigned exactly once in the method stands for its value
+    assigned = {}
+    for n in ast.walk(wr):
+        if isinstance(n, ast.Assign) and len(n.targets) == 1 and isinstance(n.targets[0], ast.Name):
+            assigned.setdefault(n.targets[0].id, []).append(n.value)
+    alias = {k: v[0] for k, v in assigned.items() if len(v) == 1}
+
+    def deref(x):
+        seen = 0
+        while isinstance(x, ast.Name) and x.id in alias and seen < 5:
+            x = alias[x.id]
+            seen += 1
+        return x
+
     def is_self_desc(x):
-        return isinstance(x, ast.Attribute) and isinstance(x.value, ast.Name) and x.value.id == "self"
+        x = deref(x)
+        return isinstance(x, ast.Attribute) and isinstance(x.value, ast.Name) and x.value.id == "self" and x.attr == "desc"
 
     def is_rec_desc(x):
+        x = deref(x)
         return isinstance(x, ast.Attribute) and isinstance(x.value, ast.Name) and x.value.id == rparam and x.attr == "_desc"
+
+    # the dictionary handed to DictWriter(...) and to writerow(...) is the _asdict(...) result of THIS record
+    def is_rdict(x):
+        return deref(x) is asd[0]
+
+    if not is_rdict(dw.args[1]):
+        raise Unsupported("CsvfileWriter.write: the DictWriter's field names are not this record's _asdict(...) result")
+    # self.desc must be set to the record's descriptor under the guard
+    sets = [n for n in ast.walk(guard) if isinstance(n, ast.Assign) and len(n.targets) == 1 and isinstance(n.targets[0], ast.Attribute)
+            and isinstance(n.targets[0].value, ast.Name) and n.targets[0].value.id == "self" and n.targets[0].attr == "desc"]
+    if len(sets) != 1 or not is_rec_desc(sets[0].value):
+        raise Unsupported("CsvfileWriter.write: self.desc is not set to the record's descriptor under the guard")
 
     t = guard.test
     ok = False
@@ -227,6 +255,8 @@ def csv_facts():
     rows = [c for c in _calls(wr) if isinstance(c.func, ast.Attribute) and c.func.attr == "writerow"]
     if len(rows) != 1 or any(c is rows[0] for c in _calls(guard)):
         raise Unsupported("CsvfileWriter.write: writerow() is not called exactly once, outside the guard")
+    if len(rows[0].args) != 1 or not is_rdict(rows[0].args[0]):
+        raise Unsupported("CsvfileWriter.write: writerow() is not given this record's _asdict(...) result")
     return dict(default=default, repl=repl, se=csv_se)
 
 
